@@ -327,17 +327,18 @@ func nackWriter(track *rtpUpTrack) {
 		return
 	}
 
+	lastSeqno, last := track.cache.Last()
+	if !last {
+		// NACK on a fresh track?  Give up.
+		return
+	}
+
 	// drop any nacks before the last keyframe
 	var cutoff uint16
 	seqno, found := track.cache.Keyframe()
 	if found {
 		cutoff = seqno
 	} else {
-		lastSeqno, last := track.cache.Last()
-		if !last {
-			// NACK on a fresh track?  Give up.
-			return
-		}
 		// no keyframe, use an arbitrary cutoff
 		cutoff = lastSeqno - 256
 	}
@@ -346,6 +347,12 @@ func nackWriter(track *rtpUpTrack) {
 	for i < len(nacks) {
 		if ((nacks[i] - cutoff) & 0x8000) != 0 {
 			// earlier than the cutoff, drop
+			nacks = append(nacks[:i], nacks[i+1:]...)
+			continue
+		}
+		if ((lastSeqno - nacks[i] - 1) & 0x8000) != 0 {
+			// not older than the newest packet we have seen,
+			// there is nothing to retransmit yet, drop
 			nacks = append(nacks[:i], nacks[i+1:]...)
 			continue
 		}
